@@ -70,7 +70,9 @@ func isoBody(c isoCase) *fail {
 // isoBodyFS also returns the backend, for checks that look at what happened to
 // its Files (C05 runs the same workloads with lifecycle assertions).
 func isoBodyFS(c isoCase) (*fail, *memfs.FS) {
-	fs := memfs.New(memfs.Options{NativeWalkGetAttr: c.Native})
+	// every other workload runs on a backend that returns the last bytes of a
+	// file together with io.EOF, as os.File-like backends may
+	fs := memfs.New(memfs.Options{NativeWalkGetAttr: c.Native, TailEOF: c.Seed%2 == 0})
 	for w := 0; w < c.Workers; w++ {
 		fs.Tree.Mkdir(fs.Tree.Root, fmt.Sprintf("g%d", w), 0o755, 0, 0)
 	}
